@@ -172,7 +172,8 @@ impl Cursor<'_> {
             '"' => self.str()?,
             // Unknown starting characters
             _ => {
-                let start = self.abs_pos() - 1;
+                // First character may be multi-byte
+                let start = start_pos;
                 self.take_while(|c| !is_whitespace(c));
                 return Err(error::lex_unknown(
                     (start..self.abs_pos()).into(),
@@ -278,7 +279,9 @@ impl Cursor<'_> {
     }
 
     fn ident(&mut self) -> Result<TokenKind> {
-        let ident_start = self.abs_pos() - 1;
+        // Start of the whole token: callers may have consumed more than one character (or
+        // non-ASCII characters) before falling back to an identifier
+        let ident_start = self.abs_pos() - self.pos_in_token();
         self.take_while(is_id);
         let ident = self
             .get_range(ident_start..self.abs_pos())
